@@ -40,3 +40,14 @@ def surgery(b, rng, k):
 
 def randoms(rng, k, maxlen=40):
     return [bytes(rng.getrandbits(8) for _ in range(rng.randrange(0, maxlen))) for _ in range(k)]
+
+def byte_sweep(b, cap_pos=16, values=(0x00, 0xff, 0x80)):
+    """every position (up to cap_pos) overwritten with each boundary value, with and without
+    truncation right after the overwritten byte: hits every length / count / tag octet"""
+    out = []
+    for i in range(min(len(b), cap_pos)):
+        for v in values:
+            if b[i] != v:
+                out.append(b[:i] + bytes([v]) + b[i + 1:])
+                out.append(b[:i] + bytes([v]))
+    return out
